@@ -91,14 +91,24 @@ static int line_to_instr(struct instr *instr_data, char *filtered_asm_str) {
   FAIL_IF_VAR(instr_data->key == INSTR_ERROR,
               "unsupported or illegal instruction: %s\n", asm_str);
   if (instr_data->imm && TYPE(instr_data->key, CONTROL_FLOW)) {
-    if (IN_RANGE(instr_data->cons, NEG80_32BIT, MAX_UNSIGNED_32BIT) ||
-        (instr_data->cons <= MAX_SIGNED_8BIT && !instr_data->keyword.is_long))
-      instr_data->keyword.is_short = true;
-    else if (instr_data->cons > MAX_SIGNED_8BIT &&
-             instr_data->keyword.is_short) {
+    // the operand is a signed displacement: it has to fit the rel32 field,
+    // and the rel8 field when the short form is requested or the only one
+    long disp = (long)instr_data->cons;
+    bool fits_rel8 = disp >= -(long)NEG8BIT_CHECK && disp <= MAX_SIGNED_8BIT;
+    bool fits_rel32 =
+        disp >= -(long)NEG32BIT_CHECK && disp <= MAX_SIGNED_32BIT;
+    bool short_only = INSTR_TABLE[instr_data->key].encode_operand == S;
+    bool has_short_row =
+        INSTR_TABLE[instr_data->key + 1].name ==
+            INSTR_TABLE[instr_data->key].name &&
+        INSTR_TABLE[instr_data->key + 1].encode_operand == S;
+    if ((short_only || instr_data->keyword.is_short) && !fits_rel8) {
       fprintf(stderr, "cannot set a long jump to short\n");
       return EXIT_FAILURE;
     }
+    FAIL_IF_MSG(!fits_rel32, "jump displacement out of range\n");
+    instr_data->keyword.is_short = !short_only && has_short_row && fits_rel8 &&
+                                   !instr_data->keyword.is_long;
   }
   // find the encoding for a short jump instruction if applicable
   instr_data->key += instr_data->keyword.is_short;
